@@ -279,12 +279,21 @@ def load_known():
         return json.load(f).get("findings", [])
 
 
+def _level_of(pid):
+    try:
+        import manifest_data
+        return manifest_data.CHECKS.get(pid, {}).get("category", "model_checking")
+    except Exception:
+        return "model_checking"
+
+
 class Report:
     """Collects violations of one property run, classifies against known findings."""
 
     def __init__(self, pid, tier):
         self.pid = pid
         self.tier = tier
+        self.level = _level_of(pid)
         self.t0 = time.time()
         self.known = [k for k in load_known() if k.get("property") == pid and k.get("status", "open") == "open"]
         self.violations = []  # (cls, detail)
@@ -349,7 +358,7 @@ class Report:
             "property_id": self.pid,
             "tier": self.tier,
             "seed": seed(),
-            "level": "model_checking",
+            "level": self.level,
             "coverage": cov,
             "assumptions": self.assumptions,
             "wall_s": round(time.time() - self.t0, 1),
